@@ -76,6 +76,10 @@ def litmus_shapes():
     for s, f in [("rlx", "rlx"), ("acqrel", "acq"), ("sc", "sc"), ("rel", "rlx")]:
         add(f"cas-cas[{s},{f}]", [[cas("x", 0, 1, s, f)], [cas("x", 0, 2, s, f)]], ["x"])
     add("cas-st", [[cas("x", 0, 1)], [st("x", 2)]], ["x"])
+    # a FAILING compare_exchange synchronises with its failure ordering only
+    for sf in [("acq", "rlx"), ("acqrel", "rlx"), ("sc", "rlx"), ("acq", "acq"), ("sc", "acq"), ("rel", "rlx")]:
+        add(f"MP-casfail[{sf[0]},{sf[1]}]", [[st("y", 1), st("x", 1, "rel")], [cas("x", 0, 2, sf[0], sf[1]), ld("y")]])
+        add(f"MP-casfail-fence[{sf[0]},{sf[1]}]", [[st("y", 1), fence("rel"), st("x", 1)], [cas("x", 0, 2, sf[0], sf[1]), ld("y")]])
     add("cas-chain", [[cas("x", 0, 1, "acqrel", "acq")], [cas("x", 1, 2, "acqrel", "acq")], [ld("x", "acq")]], ["x"])
     # release sequences
     add("relseq-rmw", [[st("y", 1), st("x", 1, "rel")], [fadd("x", 10)], [ld("x", "acq"), ld("y")]])
@@ -485,6 +489,9 @@ def syncmix(tier, seed, avoid=()):
     progs.append(P("blocked-racer-write", SJ(3) + JJ(3), [L("write", "l"), ld("y", "sc"), L("unlockw", "l"), st("x", 2, "sc")], [fadd("x", 1, "sc")],
                    [L("read", "l"), st("y", 1, "sc"), L("unlockr", "l")]))
     progs.append(P("blocked-racer-trylock", SJ(3) + JJ(3), CS("m", st("x", 1, "sc")), CS("m", fadd("x", 2, "sc")), [L("trylock", "m"), br(1, 1, 1), L("unlock", "m")]))
+    progs.append(P("store-unpark-vs-load-park", [spawn(2), st("x", 1, "sc"), unpark(2), join(2)], [ld("x", "sc"), L("park")]))
+    progs.append(P("locked-write-unpark-vs-locked-read-park", [spawn(2), spawn(3)] + CS("m", st("x", 1, "sc")) + [unpark(2), unpark(3), join(2), join(3)],
+                   CS("m", ld("x", "sc")) + [L("park")], CS("m", ld("x", "sc")) + [L("park")]))
     per = 8 if tier == "quick" else 60
     for feats in mixes:
         k = 0
@@ -564,6 +571,9 @@ def race_idioms():
         [ld("x", "acq"), br(1, 2, 1), rd("c")]))
     A(P("cas-handover-ok", sj(2) + jj(2), [wr("c"), cas("x", 0, 1, "rel", "rlx")], [cas("x", 1, 2, "acq", "rlx"), br(1, 1, 1), rd("c")]))
     A(P("cas-handover-racy", sj(2) + jj(2), [wr("c"), cas("x", 0, 1, "rlx", "rlx")], [cas("x", 1, 2, "acq", "rlx"), br(1, 1, 1), rd("c")]))
+    A(P("casfail-handover-racy", sj(2) + jj(2), [wr("c"), st("x", 1, "rel")], [cas("x", 0, 2, "acq", "rlx"), br(1, 1, 1), rd("c")]))
+    A(P("casfail-handover-racy-sc", sj(2) + jj(2), [wr("c"), st("x", 1, "rel")], [cas("x", 0, 2, "sc", "rlx"), br(1, 1, 1), rd("c")]))
+    A(P("casfail-handover-ok", sj(2) + jj(2), [wr("c"), st("x", 1, "rel")], [cas("x", 0, 2, "acq", "acq"), br(1, 1, 1), rd("c")]))
     # multi-hop message passing
     A(P("2hop-ok", sj(3) + jj(3), [wr("c"), st("x", 1, "rel")], [await_("x", "acq"), st("y", 1, "rel")], [await_("y", "acq"), rd("c")]))
     A(P("2hop-rlxmid-racy", sj(3) + jj(3), [wr("c"), st("x", 1, "rel")], [await_("x", "rlx"), st("y", 1, "rel")],
@@ -586,6 +596,11 @@ def race_idioms():
     A(P("park-ok", [spawn(3), spawn(2), join(2), join(3)], [wr("c"), unpark(3)], [L("park"), rd("c")]))
     A(P("park-racy", [spawn(3), spawn(2), join(2), join(3)], [wr("c"), unpark(3)], [rd("c"), L("park")]))
     A(P("unpark-nopark-racy", [spawn(3), spawn(2), join(2), join(3)], [wr("c"), unpark(3)], [ld("x"), rd("c")]))
+    # the unpark arrives BEFORE the park (token): the edge must be there all the same
+    A(P("unpark-first-ok", [spawn(2), spawn(3), join(2), join(3)], [wr("c"), unpark(3)], [L("park"), rd("c")]))
+    A(P("unpark-first-main-ok", [spawn(2), wr("c"), unpark(2), join(2)], [L("park"), rd("c")]))
+    A(P("unpark-first-after-yield-ok", [spawn(2), wr("c"), unpark(2), join(2)], [ld("x"), L("park"), rd("c")]))
+    A(P("unpark-first-racy", [spawn(2), unpark(2), wr("c"), join(2)], [L("park"), rd("c")]))
     # condvar (mutex protects; never racy)
     A(P("cv-ok", sj(2) + jj(2), [L("lock", "m"), wr("c"), L("notify1", "cv"), L("unlock", "m")],
         [L("lock", "m"), rd("c"), L("unlock", "m")]))
@@ -649,12 +664,34 @@ def blocking_shapes():
     A(P("lock-order-ok", SJ(2) + JJ(2), CS("m", *CS("n")), CS("m", *CS("n"))))
     A(P("lock-inversion-3", SJ(3) + JJ(3), CS("m", *CS("n")), CS("n", *CS("k")), CS("k", *CS("m"))))
     A(P("lock-inversion-guarded", SJ(2) + JJ(2), CS("g", *CS("m", *CS("n"))), CS("g", *CS("n", *CS("m")))))
+    A(P("rw-inversion", SJ(2) + JJ(2), [L("write", "l"), L("write", "k"), L("unlockw", "k"), L("unlockw", "l")],
+        [L("write", "k"), L("write", "l"), L("unlockw", "l"), L("unlockw", "k")]))
+    A(P("rw-read-write-inversion", SJ(2) + JJ(2), [L("read", "l"), L("write", "k"), L("unlockw", "k"), L("unlockr", "l")],
+        [L("read", "k"), L("write", "l"), L("unlockw", "l"), L("unlockr", "k")]))
+    A(P("rw-readers-only-ok", SJ(2) + JJ(2), [L("read", "l"), L("read", "k"), L("unlockr", "k"), L("unlockr", "l")],
+        [L("read", "k"), L("read", "l"), L("unlockr", "l"), L("unlockr", "k")]))
+    A(P("recv-nosender-holding-read", [spawn(2), join(2)], [L("read", "l"), L("recv", "ch"), L("unlockr", "l")]))
+    A(P("recv-nosender-holding-write", [spawn(2), join(2)], [L("write", "l"), L("recv", "ch"), L("unlockw", "l")]))
+    # a reader that holds its guard while it waits for another reader of the same lock: readers never exclude each other
+    A(P("reader-waits-for-reader", [spawn(2), spawn(3), L("recv", "c1"), join(2), join(3), L("droprx", "c1")],
+        [L("read", "l"), L("send", "c1", v=1), L("recv", "c2"), L("unlockr", "l"), L("droprx", "c2")],
+        [L("read", "l"), L("unlockr", "l"), L("send", "c2", v=1)]))
+    A(P("reader-joins-reader", [spawn(3), spawn(2), L("recv", "c1"), join(2), L("droprx", "c1")],
+        [L("read", "l"), L("send", "c1", v=1), join(3), L("unlockr", "l")], [L("read", "l"), L("unlockr", "l")]))
+    A(P("reader-joins-tryreader", [spawn(3), spawn(2), L("recv", "c1"), join(2), L("droprx", "c1")],
+        [L("read", "l"), L("send", "c1", v=1), join(3), L("unlockr", "l")], [L("tryread", "l"), br(1, 1, 1), L("unlockr", "l")]))
     A(P("recv-nosender", [spawn(2), L("recv", "ch"), join(2)], [ld("x")]))
     A(P("recv-sender", [spawn(2), L("recv", "ch"), join(2), L("droprx", "ch")], [L("send", "ch", v=1)]))
     A(P("recv-2-of-1", [spawn(2), L("recv", "ch"), L("recv", "ch"), join(2)], [L("send", "ch", v=1)]))
     A(P("park-nounpark", [spawn(2), join(2)], [L("park")]))
     A(P("park-unpark", [spawn(2), unpark(2), join(2)], [L("park")]))
     A(P("park-unpark-early-late", [spawn(2), spawn(3), join(2), join(3)], [L("park"), ld("x")], [st("x", 1), unpark(2)]))
+    # an access before the unpark races with what the target does BEFORE it parks (unpark does not wait for the park)
+    A(P("store-unpark-vs-load-park", [spawn(2), st("x", 1, "sc"), unpark(2), join(2)], [ld("x", "sc"), L("park")]))
+    A(P("locked-write-unpark-vs-locked-read-park", [spawn(2), spawn(3)] + CS("m", st("x", 1, "sc")) + [unpark(2), unpark(3), join(2), join(3)],
+        CS("m", ld("x", "sc")) + [L("park")], CS("m", ld("x", "sc")) + [L("park")]))
+    A(P("missed-flag-then-park-twice", [spawn(2), st("x", 1, "sc"), unpark(2), join(2)], [ld("x", "sc"), br(1, 0, 2), L("park"), L("park")]))
+    A(P("send-unpark-vs-tryrecv-park", [spawn(2), L("send", "ch", v=1), unpark(2), join(2)], [L("tryrecv", "ch"), L("park"), L("droprx", "ch")]))
     A(P("park-twice-one-unpark", [spawn(2), unpark(2), join(2)], [L("park"), L("park")]))
     A(P("park-twice-two-unparks", [spawn(2), unpark(2), unpark(2), join(2)], [L("park"), L("park")]))
     A(P("park-twice-unparks-2threads", [spawn(2), spawn(3), unpark(2), join(2), join(3)], [L("park"), L("park")], [unpark(2)]))
@@ -709,8 +746,21 @@ def blocking(tier, seed):
 
 
 def lock_shapes():
-    out = []
+    out = [p for p in blocking_shapes() if p["name"] in ("reader-waits-for-reader", "reader-joins-reader", "reader-joins-tryreader",
+                                                          "rw-readers-only-ok", "rw-read-write-inversion")]
     A = out.append
+    # a refused try_* must leave the lock as it is: every later attempt while the holder is still inside is refused too
+    A(P("try-twice-under-own-write", [L("write", "l"), L("tryread", "l"), L("tryread", "l"), L("trywrite", "l"), L("unlockw", "l"),
+                                      L("tryread", "l"), br(4, 1, 1), L("unlockr", "l")]))
+    A(P("try-twice-under-own-read", [L("read", "l"), L("trywrite", "l"), L("trywrite", "l"), L("unlockr", "l"),
+                                     L("trywrite", "l"), br(3, 1, 1), L("unlockw", "l")]))
+    A(P("tryread-twice-under-writer", SJ(2) + JJ(2), [L("write", "l"), st("x", 1, "sc"), wr("c_l"), ld("y", "sc"), L("unlockw", "l")],
+        [ld("x", "sc"), L("tryread", "l"), br(2, 1, 2), rd("c_l"), L("unlockr", "l"), L("tryread", "l"), br(3, 1, 2), rd("c_l"), L("unlockr", "l")], tags=["sync"]))
+    A(P("tryread-then-read-under-writer", SJ(2) + JJ(2), [L("write", "l"), st("x", 1, "sc"), wr("c_l"), ld("y", "sc"), L("unlockw", "l")],
+        [ld("x", "sc"), L("tryread", "l"), br(2, 1, 2), rd("c_l"), L("unlockr", "l"), L("read", "l"), rd("c_l"), L("unlockr", "l")], tags=["sync"]))
+    A(P("tryread-then-trywrite-3", SJ(3) + JJ(3), [L("write", "l"), st("x", 1, "sc"), wr("c_l"), ld("y", "sc"), L("unlockw", "l")],
+        [ld("x", "sc"), L("tryread", "l"), br(2, 1, 1), L("unlockr", "l")],
+        [ld("x", "sc"), L("trywrite", "l"), br(2, 1, 2), wr("c_l"), L("unlockw", "l")], tags=["sync"]))
     A(P("mutex-3", SJ(3) + JJ(3), CS("m", wr("c_m"), ld("x")), CS("m", wr("c_m"), st("x", 1)), CS("m", wr("c_m"))))
     A(P("mutex-nested", SJ(2) + JJ(2), CS("m", wr("c_m"), *CS("n", wr("c_n"))), CS("m", *CS("n", wr("c_n")), wr("c_m"))))
     A(P("mutex-overlap", SJ(2) + JJ(2), [L("lock", "m"), L("lock", "n"), wr("c_m"), L("unlock", "m"), wr("c_n"), L("unlock", "n")],
@@ -786,6 +836,10 @@ def wait_shapes():
     A(P("cv-handover", SJ(2) + JJ(2), CS("m", L("cvwait", "cv", o2="m"), rd("c")), [wr("c")] + CS("m", L("notify1", "cv"))))
     A(P("cv-handover-in-cs", SJ(2) + JJ(2), CS("m", L("cvwait", "cv", o2="m"), rd("c")), CS("m", wr("c"), L("notify1", "cv"))))
     A(P("notify-handover", [spawn(2), wr("c"), L("notify", "nt"), join(2)], [L("nwait", "nt"), rd("c")]))
+    # at most ONE spurious return per Notify, also after a real wake-up in between: the third return is the second notification
+    A(P("notify-spurious-once-three-waits", [spawn(2), L("nwait", "nt"), ld("s"), br(1, 0, 5), L("nwait", "nt"), ld("s"), st("a", 1, "rel"),
+                                             L("nwait", "nt"), ld("s"), st("a", 1, "rel"), join(2)],
+        [st("s", 1), L("notify", "nt"), await_("a", "acq"), st("s", 2), L("notify", "nt")]))
     # two notifications coalesce before the wait: the waiter is ordered after (at least) the last notifier
     A(P("notify-twice-handover", [spawn(2), spawn(3), L("nwait", "nt"), ld("a"), ld("b"), join(2), join(3)],
         [st("a", 1), L("notify", "nt")], [st("b", 1), L("notify", "nt")]))
@@ -1151,6 +1205,27 @@ def panic_base():
         [L("ahold", "a2"), ld("x")] + CS("m", L("notify1", "cv")) + [L("adropheld", "a2")], arcs=a2))
     A(P("pb-deadlock-locks-arc-in-frame", SJ(2) + JJ(2), [L("ahold", "a1")] + CS("m", ld("x"), *CS("n")) + [L("adropheld", "a1")],
         [L("ahold", "a2")] + CS("n", ld("x"), *CS("m")) + [L("adropheld", "a2")], arcs=a2))
+    # ... or a guard of any kind (the unwinding thread releases a lock of an execution that has no active thread any more)
+    RD = lambda l, *b: [L("read", l)] + list(b) + [L("unlockr", l)]
+    WR = lambda l, *b: [L("write", l)] + list(b) + [L("unlockw", l)]
+    A(P("pb-deadlock-holding-read-guard", [spawn(2), join(2)], RD("l", L("recv", "ch"))))
+    A(P("pb-deadlock-holding-write-guard", [spawn(2), join(2)], WR("l", L("recv", "ch"))))
+    A(P("pb-deadlock-rw-inversion", SJ(2) + JJ(2), WR("l", ld("x"), *WR("k")), WR("k", ld("x"), *WR("l"))))
+    A(P("pb-deadlock-read-then-write-inversion", SJ(2) + JJ(2), RD("l", ld("x"), *WR("k")), RD("k", ld("x"), *WR("l"))))
+    A(P("pb-deadlock-holding-mutex-and-read-guard", SJ(2) + JJ(2), CS("m", *RD("l", ld("x"), *CS("n"))), CS("n", *RD("l", ld("x"), *CS("m")))))
+    A(P("pb-deadlock-main-holding-read-guard", [spawn(2)] + RD("l", join(2)), [L("recv", "ch")]))
+    A(P("pb-deadlock-parked-holding-write-guard", [spawn(2), join(2)], WR("l", L("park"))))
+    A(P("pb-deadlock-nwait-holding-read-guard", [spawn(2), join(2)], RD("l", L("nwait", "nt"))))
+    # the panic is raised INSIDE the closure of with / with_mut, and a destructor of the unwinding frame touches the same atomic
+    A(P("pb-panic-in-wmut", [spawn(2), join(2), I("wmut", "x", v=3, k="panic")], [ld("y")]))
+    A(P("pb-panic-in-wmut-guard", [I("aguard", "x"), spawn(2), join(2), I("wmut", "x", v=3, k="panic")], [ld("y")]))
+    A(P("pb-panic-in-wmut-guard-late", [I("aguard", "x")] + SJ(2) + JJ(2) + [ld("z"), br(1, 1, 1), I("wmut", "x", v=3, k="panic")],
+        [st("z", 1, "rel")], [ld("z", "acq")]))
+    A(P("pb-panic-in-wmut-guard-thread", [spawn(2), ld("y"), join(2)], [I("aguard", "x"), ld("y"), I("wmut", "x", v=3, k="panic")]))
+    A(P("pb-guard-plain", [spawn(2), ld("y"), join(2)], [I("aguard", "x"), st("x", 1), ld("y"), I("wmut", "x", v=3), st("x", 2)]))
+    A(P("pb-panic-in-cell-read", [spawn(2), join(2), I("rd", "c", k="panic")], [L("wr", "c")]))
+    A(P("pb-panic-in-cell-write", [spawn(2), join(2), I("wr", "c", k="panic")], [L("rd", "c")]))
+    A(P("pb-panic-in-cell-write-then-reuse", SJ(2) + JJ(2), [I("aguard", "x"), ld("y"), I("wr", "c", k="panic")], [ld("y"), st("x", 1)]))
     A(P("pb-track", [L("tnew", "k"), spawn(2), ld("x"), join(2)], [ld("x"), L("tdrop", "k")]))
     A(P("pb-track-moved-into-unstarted-thread", [L("tnew", "k"), I("spawn", k="k", v=2), ld("x"), join(2)], [ld("x"), L("tdrop", "k")]))
     A(P("pb-receiver-moved-into-unstarted-thread", [I("spawn", o2="ch", v=2), ld("x"), L("send", "ch", v=1), join(2)],
